@@ -54,8 +54,13 @@ type PConn struct {
 	Rec      []byte // frame-stream bytes handed to the server (injected bytes included), in order
 	Chunks   []int  // sizes of the writes that carried them
 	Hs       []byte // the client's handshake as received
+	HsChunks [][]byte // ... as handed to the server
+	Injected int      // bytes of Rec that the proxy injected itself
 	FromCli  int64  // frame-stream bytes received from the client
 	cutDone  bool
+	cutAt    int64 // absolute frame-stream offset after which the connection is cut (-1 = never)
+	pos      int64 // frame-stream bytes of the client handed to the server so far (injected bytes not counted)
+	halfCut  bool  // cut towards the client only: what was received keeps flowing to the server
 	closed   bool
 	release  chan struct{}
 	Done     chan struct{} // closed when the client->server direction ended
@@ -170,6 +175,7 @@ func (p *Proxy) acceptLoop(ln net.Listener) {
 		}
 		idx := len(p.conns)
 		pc := &PConn{Idx: idx, Plan: p.planFn(idx), client: c, release: make(chan struct{}), Done: make(chan struct{})}
+		pc.cutAt = pc.Plan.CutAfter
 		p.conns = append(p.conns, pc)
 		target := p.target
 		p.mu.Unlock()
@@ -201,6 +207,34 @@ func (c *PConn) Kill(reset bool) {
 	if c.server != nil {
 		c.server.Close()
 	}
+}
+
+// ArmCut: cut the connection once `more` further bytes of the frame stream were handed to the server.
+func (c *PConn) ArmCut(more int64) {
+	c.mu.Lock()
+	c.cutAt = c.pos + more
+	c.mu.Unlock()
+}
+
+func (c *PConn) Pos() int64 {
+	c.mu.Lock()
+	defer c.mu.Unlock()
+	return c.pos
+}
+
+// ResetClient resets the client leg only: the client's next write fails, while everything the proxy already
+// received from it is still handed to the server (data in flight when the sender's side of the path broke).
+func (c *PConn) ResetClient() {
+	c.mu.Lock()
+	c.halfCut = true
+	c.mu.Unlock()
+	rst(c.client)
+}
+
+func (c *PConn) Alive() bool {
+	c.mu.Lock()
+	defer c.mu.Unlock()
+	return !c.closed && !c.cutDone && !c.halfCut
 }
 
 func (c *PConn) Release() {
@@ -314,6 +348,13 @@ func (c *PConn) run(target string) {
 		c.Kill(true)
 		return
 	}
+	c.mu.Lock()
+	if c.Plan.HsSplit > 0 && c.Plan.HsSplit < len(hs) {
+		c.HsChunks = [][]byte{hs[:c.Plan.HsSplit], hs[c.Plan.HsSplit:]}
+	} else {
+		c.HsChunks = [][]byte{hs}
+	}
+	c.mu.Unlock()
 	// server -> client: handshake reply (possibly split), then verbatim
 	go func() {
 		rh, err := readHandshake(s)
@@ -326,9 +367,12 @@ func (c *PConn) run(target string) {
 			return
 		}
 		io.Copy(c.client, s)
-		// the server closed its side: pass the FIN on
-		if tc, ok := c.client.(*net.TCPConn); ok {
-			tc.CloseWrite()
+		// the server closed its side (or its leg broke): the client's leg goes too
+		c.mu.Lock()
+		half := c.halfCut
+		c.mu.Unlock()
+		if !half {
+			c.Kill(true)
 		}
 	}()
 	c.pump()
@@ -398,12 +442,14 @@ func (c *PConn) pump() {
 	var aheadPos int64
 	eof := false
 	idle := 2 * time.Millisecond
+	track := true
 	emit := func(b []byte) bool {
 		if len(b) == 0 {
 			return true
 		}
-		// injection at frame boundaries
-		fr.feed(b, nil)
+		if track {
+			fr.feed(b, nil)
+		}
 		if _, err := c.server.Write(b); err != nil {
 			return false
 		}
@@ -417,6 +463,7 @@ func (c *PConn) pump() {
 		return true
 	}
 	nextFrameNo := 0
+	serverFailed := false
 	for {
 		// gather
 		if len(pend) == 0 && !eof {
@@ -463,7 +510,14 @@ func (c *PConn) pump() {
 		// injection: pos is at a frame start
 		if len(starts) > 0 && starts[0] == pos {
 			if inj, ok := c.Plan.Inject[nextFrameNo]; ok {
-				if !emit(inj) {
+				track = false
+				ok := emit(inj)
+				track = true
+				c.mu.Lock()
+				c.Injected += len(inj)
+				c.mu.Unlock()
+				if !ok {
+					serverFailed = true
 					break
 				}
 			}
@@ -512,17 +566,27 @@ func (c *PConn) pump() {
 		if n > len(pend) {
 			n = len(pend)
 		}
-		if c.Plan.CutAfter >= 0 && pos+int64(n) > c.Plan.CutAfter {
-			n = int(c.Plan.CutAfter - pos)
+		c.mu.Lock()
+		cutAt := c.cutAt
+		c.mu.Unlock()
+		if cutAt >= 0 && pos+int64(n) > cutAt {
+			n = int(cutAt - pos)
+			if n < 0 {
+				n = 0
+			}
 		}
 		if n > 0 {
 			if !emit(pend[:n]) {
+				serverFailed = true
 				break
 			}
 			pos += int64(n)
+			c.mu.Lock()
+			c.pos = pos
+			c.mu.Unlock()
 			pend = pend[n:]
 		}
-		if c.Plan.CutAfter >= 0 && pos >= c.Plan.CutAfter {
+		if cutAt >= 0 && pos >= cutAt {
 			c.mu.Lock()
 			c.cutDone = true
 			c.mu.Unlock()
@@ -539,6 +603,10 @@ func (c *PConn) pump() {
 		}
 	}
 	// the client closed (or the server leg failed): pass the end of stream on
+	if serverFailed {
+		c.Kill(true)
+		return
+	}
 	c.mu.Lock()
 	already := c.closed
 	c.mu.Unlock()
